@@ -18,6 +18,9 @@ CHECKS = {
  "C03": ("exploration", "admission oracle + pool-validity auditor: every DoTx / submission result in random histories with conflict families and hostile variants is compared both ways with a statement-level model of chain(tip)+pool; after every op the pool must be explainable as a sequential extension of the model state",
          "Runtime monitor with an implementation-independent admission model over thousands of operations; held on what was explored (two PlayAndRepost-with-pool defects are listed as known findings).",
          "Trusted: the statement-level model (refmodel/state.go); signatures / ACL / contract re-execution are other properties.", "DESIGN.md §3 C03"),
+ "C05": ("fault_enumeration", "live-vs-reopened twin comparison after every op + no-trace oracle (stored bytes and all answers unchanged) after ops built to fail at named stages, incl. valid ops whose k-th storage write is failed by the interposed storage engine",
+         "Runtime fault injection at the storage-write boundary and at every named failure stage, over random histories; the k of 'fail write k' is drawn from the measured write count of each op (sampled, not exhaustive per op; the thorough tier enumerates more).",
+         "Trusted: verifmem (single Put/Delete and Batch.Write fail or apply atomically). Faults below the kvdb boundary are out of reach.", "DESIGN.md §3 C05"),
 }
 NOT_YET = "check not built yet in this session (work in progress; see DESIGN.md for the planned monitor)"
 ALL = ["C%02d" % i for i in range(1, 21)]
